@@ -18,6 +18,11 @@ func (fr *frame) safety(b *ssa.BasicBlock, kind string, pos token.Pos, reach, go
 		return
 	}
 	x.addObl("safety", fmt.Sprintf("%s.safety.%s", shortFn(fr.fn), kind), kind, pos, reach, goal)
+	if x.topFr != nil && fr.depth == 0 {
+		last := x.obls[len(x.obls)-1]
+		last.Con = x.con
+		x.replayInfo(last, x.topFr, x.topFr.entry)
+	}
 	// execution continues only if the check passed
 	x.sc.assert(implies(reach, goal))
 }
